@@ -83,11 +83,11 @@ func init() {
 			ex.mapIter = true // environment choice the native run cannot be steered into: sample executed, not compared
 			pre := append(append([]Term{}, hash...), sig...)
 			// whether recovery succeeds is an arbitrary but fixed function of (hash, signature)
-			okb := ex.hashBytes("ecrecover-ok", pre, 1)[0]
+			okb := ex.funBytes("ecrecover-ok", pre, 1, false)[0]
 			if !ex.decide(Lt(okb, IntC(128))) {
 				return VTuple{VPtr{}, ex.mkErr("recovery failed", nil)}
 			}
-			addr := ex.hashBytes("ecrecover", pre, 20)
+			addr := ex.funBytes("ecrecover", pre, 20, false)
 			return VTuple{VPtr{O: ex.newObj(VOpaque{Kind: "pubkey", Data: addr})}, nilErr()}
 		}
 		// baseapp.ValidateVoteExtensions (CometBFT signature and voting-power validation of the extended commit):
